@@ -1320,11 +1320,18 @@ class Trust(Packet):
 
     def parse(self, packet):
         super(Trust, self).parse(packet)
-        # self.trustlevel = packet[0] & 0x1f
-        t = self.bytes_to_int(packet[:2])
-        del packet[:2]
+        # the contents of a trust packet are up to the implementation that wrote it (RFC 4880, 5.10): GnuPG 1.4 and
+        # 2.0 write two octets, later versions twelve after keys and user ids and six after signatures
+        body = packet[:self.header.length]
+        del packet[:self.header.length]
 
-        self.trustlevel = t
+        t = self.bytes_to_int(body[:2]) if len(body) >= 2 else 0
+        try:
+            self.trustlevel = t
+
+        except ValueError:
+            self.trustlevel = TrustLevel.Unknown
+
         self.trustflags = t
 
 
